@@ -4,6 +4,7 @@ CONSTANTS
   N = 2
   MaxCalls = 1
   MaxRel = 0
-INVARIANTS TypeOK HoldersBound CancelWhenFull SettledFull LosersGetErr
+  Kinds <- AllKinds
+INVARIANTS TypeOK HoldersBound CancelWhenFull SettledFull LosersGetErr ReturnsCtxErr
 PROPERTIES EveryoneReturns ErrOnlyWhenDone
 CHECK_DEADLOCK FALSE
